@@ -1224,8 +1224,39 @@ def _norm_what(w):
     return m.group(1) if m else w
 
 
+def _untuple1(d):
+    """`tuple{X}.0` (one component) → X"""
+    out, i = "", 0
+    while True:
+        j = d.find("tuple{", i)
+        if j < 0:
+            return out + d[i:]
+        depth, k, comma = 0, j + 5, False
+        while k < len(d):
+            ch = d[k]
+            if ch in "{([":
+                depth += 1
+            elif ch in "})]":
+                depth -= 1
+                if depth == 0:
+                    break
+            elif ch == "," and depth == 1:
+                comma = True
+            k += 1
+        if k < len(d) and not comma and d[k + 1:k + 3] == ".0":
+            out += d[i:j] + d[j + 6:k]
+            i = k + 3
+        else:
+            out += d[i:j + 6]
+            i = j + 6
+
+
 def _norm_desc(d):
     d = re.sub(r"^(?:index|array|traits)::(index(?:_mut)?)\(", r"\1(", d)
+    # the number rustc gives a constant allocation (a format string) changes with unrelated code
+    d = re.sub(r"\balloc\d+\b", "alloc", d)
+    # ... and a value formatted directly or through the one-element tuple format_args! builds is the same value
+    d = _untuple1(d)
     # ((x + a) + b) is (x + (a+b)): an offset written in two steps reads like the same offset written in one
     for _ in range(3):
         d2 = re.sub(r"\(\((\w+) AddWithOverflow (\d+)\)\.0 AddWithOverflow (\d+)\)\.0",
